@@ -172,10 +172,13 @@ class ManageSieveConnection:
     async def _read_data(self) -> memoryview:
         data = bytearray()
         while True:
-            data += await self.reader.readline()
-            if not data.endswith(b'\n'):
+            # only the line just read may end in a literal marker, the
+            # data before it can end in literal content that looks like one
+            line = await self.reader.readline()
+            data += line
+            if not line.endswith(b'\n'):
                 raise EOFError()
-            match = self._literal_plus.search(data)
+            match = self._literal_plus.search(line)
             if not match:
                 break
             literal_length = int(match.group(1))
